@@ -17,7 +17,7 @@ pub struct C14 {
 	/// tokens handed out by earlier opens of each wallet
 	old_tokens: BTreeMap<usize, Vec<SecretKey>>,
 	last_token: BTreeMap<usize, SecretKey>,
-	pre: Option<(usize, u64)>,
+	pre: Option<(usize, std::collections::BTreeMap<String, u64>)>,
 	pre_active: Option<String>,
 	calls: u64,
 	closed_by_script: Option<usize>,
@@ -384,7 +384,7 @@ impl Prop for C14 {
 			if name == "token_call" {
 				let w = args["w"].as_u64().unwrap_or(0) as usize;
 				if w < run.ex.world.wallets.len() {
-					self.pre = Some((w, run.ex.world.dir_digest(w)));
+					self.pre = Some((w, run.ex.world.dir_state(w)));
 					self.pre_active = if run.ex.world.is_open(w) && run.ex.world.wallets[w].inst.is_some() {
 						Some(run.ex.world.snap(w).active)
 					} else {
@@ -411,7 +411,7 @@ impl Prop for C14 {
 				self.calls += 1;
 				let state = if closed { "closed" } else { "open" };
 				run.cov.case(&format!("{}|{}|{}", method, class, state), class != "right" || closed);
-				let dig1 = run.ex.world.dir_digest(w);
+				let dig1 = run.ex.world.dir_state(w);
 				let wrong = class != "right";
 				if closed {
 					// after the wallet is closed no operation succeeds until it is reopened
@@ -461,7 +461,13 @@ impl Prop for C14 {
 						v.push(run.viol(
 							"wrong_token_no_effect",
 							&format!("wrong_token_changed_state:{}:{}", method, class),
-							format!("wallet {}: {} with a {} token changed the wallet's stored state", w, method, class),
+							format!(
+							"wallet {}: {} with a {} token changed the wallet's stored state ({})",
+							w,
+							method,
+							class,
+							crate::world::World::dir_diff_kinds(&dig0, &dig1)
+						),
 						));
 						return v;
 					}
